@@ -163,15 +163,24 @@ def keysCanonical (rs : List Bytes) (hs : List Header) : Bool :=
 /-- what the dump must look like: every value of every credential header replaced by the placeholder -/
 def idealHeaders (rs : List Bytes) (hs : List Header) : Bytes := dumpHeadersBy (listedCI rs) hs
 
+/-- the pieces of a secret that are looked for in a dump: the whole value if it is short, otherwise 24-byte
+windows every 128 bytes and the last 24 bytes (a dump that shows a truncated secret still shows a window) -/
+def chunks (v : Bytes) : List Bytes :=
+  if v.length ≤ 32 then [v]
+  else ((List.range ((v.length - 24) / 128 + 1)).map fun i => (v.drop (i * 128)).take 24) ++ [v.drop (v.length - 24)]
+
+/-- `c` shows in `out` although nothing outside the credential headers contains it -/
+def leaks1 (out ideal c : Bytes) : Bool := isInfixB c out && !isInfixB c ideal
+
 /-- **Executable spec on the implementation's dump** `out`: the planted secrets are all non-empty values
-of credential headers; one leaks if it occurs in `out` although it occurs nowhere in the request outside
-the credential headers (request line, Host line, other headers, body — i.e. not in the ideal dump).
+of credential headers; one leaks if (a chunk of) it occurs in `out` although it occurs nowhere in the request
+outside the credential headers (request line, Host line, other headers, body — i.e. not in the ideal dump).
 Result: leaked values under canonically spelled keys / under other spellings. -/
 def leaked (rs : List Bytes) (reqLine hostLine : Bytes) (hs : List Header) (body out : Bytes) :
     List Bytes × List Bytes :=
   let ideal := reqLine ++ hostLine ++ idealHeaders rs hs ++ crlf ++ body
   let bad (h : Header) : List Bytes :=
-    h.2.filter fun v => v ≠ [] && isInfixB v out && !isInfixB v ideal
+    h.2.filter fun v => v ≠ [] && (chunks v).any (leaks1 out ideal)
   let cred := hs.filter fun h => listedCI rs h.1
   ((cred.filter fun h => rs.contains h.1).flatMap bad, (cred.filter fun h => !rs.contains h.1).flatMap bad)
 
